@@ -12,7 +12,9 @@ THEOREMS = [
 ]
 RULE = ("valid messages (1-3 records, text without framing controls, final ETX or intermediate ETB frames) and for each: "
         "every single-byte substitution at every content and checksum position x 255 values, every truncation, removal "
-        "of each framing element, the four case spellings of the checksum, with/without trailing CR LF; observed through "
+        "of each framing element, the four case spellings of the checksum, with/without trailing CR LF; structural "
+        "malformations with a matching checksum (stray byte x 256 values after STX / before, inside, after the terminator; wrong "
+        "terminators); messages of 33-70 kB with substitutions around block boundaries; observed through "
         "decode_message, decode, validate_checksum; every corruption is non-trivial")
 LEVEL_NOTE = ("proof over all byte lists: decode_message = ok implies WellFormed; every single substitution / truncation of a "
               "valid message (text free of STX) is rejected; tie = decode_message / decode_frame / make_checksum models vs code")
@@ -53,6 +55,19 @@ def variants(msg):
         yield ("rm-etb", msg[:end - 3] + msg[end - 2:], True)
     yield ("rm-cs1", msg[:end - 2] + msg[end - 1:], True)
     yield ("rm-cs2", msg[:end - 1] + msg[end:], True)
+    # structural malformations with a *matching* checksum: a stray byte after STX, inside / around the terminator or
+    # between terminator and checksum; a wrong or doubled terminator.  Only the declarative rule decides.
+    content = msg[1:end - 2]
+    tlen = 2 if content.endswith(b"\r\x03") else 1
+    for at, name in ((0, "ins-after-stx"), (len(content) - tlen, "ins-before-term"), (len(content) - 1, "ins-in-term"),
+                     (len(content), "ins-after-term")):
+        for b in range(256):
+            c2 = content[:at] + bytes([b]) + content[at:]
+            yield (name, b"\x02" + c2 + gens.checksum(c2) + msg[end:], None)
+    for term, name in ((b"\x03", "term-etx-only"), (b"\r", "term-cr-only"), (b"\x03\r", "term-swapped"), (b"", "term-none"),
+                       (b"\r\x03\x17", "term-both"), (b"\n\x03", "term-lf-etx"), (b"\r\n\x03", "term-crlf-etx")):
+        c2 = content[:len(content) - tlen] + term
+        yield (name, b"\x02" + c2 + gens.checksum(c2) + msg[end:], None)
     cs = msg[end - 2:end]
     yield ("case-lower", msg[:end - 2] + cs.lower() + msg[end:], False)
     yield ("case-mixed", msg[:end - 2] + cs[:1].lower() + cs[1:] + msg[end:], False)
@@ -78,13 +93,13 @@ def run(ctx):
             s.nontrivial.add(hash(key))
             if len(s.samples) < 3:
                 s.samples.append({"message": hexb(msg), "kind": kind, "mutated": hexb(mut)})
-            if must_reject and got.startswith("ok"):
+            if must_reject is True and got.startswith("ok"):
                 # exclude the (legal) case where the mutation yields another *valid* message by the declarative rule
                 if not wellformed(mut):
                     s.fail({"message": hexb(msg), "kind": kind, "mutated": hexb(mut), "impl": got},
                            "decode_message returned records for a corrupted message (%s)" % kind,
                            "corruptions/accepted-" + kind)
-            if not must_reject and not got.startswith("ok"):
+            if must_reject is False and not got.startswith("ok"):
                 s.fail({"message": hexb(msg), "kind": kind, "mutated": hexb(mut)},
                        "decode_message rejects a message that differs only in checksum letter case / trailing CR LF (%s)" % kind,
                        "corruptions/rejected-" + kind)
@@ -105,7 +120,53 @@ def run(ctx):
         for l, i, m, meta in zip(lines, impls, model, metas):
             if codecio.canon_model(m) != i:
                 s.disagree({"message": hexb(meta[0]), "kind": meta[1], "mutated": hexb(meta[2])}, i, m)
-    return [s]
+
+    # large messages (tens of kilobytes, as instruments with histogram data send): substitutions around block
+    # boundaries (powers of two, multiples of 4 KiB) and at random positions
+    big = Stream("large-messages")
+    lines, impls, metas = [], [], []
+    for size in ([33000, 70000, 140000] if ctx.thorough else [33000, 70000]):
+        text = bytes(x for x in (r.randrange(256) for _ in range(size + 600)) if x not in (2, 3, 0x17, 10, 13))[:size]
+        text = b"R|1|" + text
+        msg = gens.frame(r.randrange(8), text, final=True)
+        end = len(msg) - 2
+        if not codecio.impl_line("dm", "latin-1", msg).startswith("ok"):
+            big.fail({"len": len(msg)}, "a valid large message is rejected", "large/valid-rejected")
+            continue
+        positions = set()
+        k = 1
+        while k < end:
+            positions.update(p for p in (k - 2, k - 1, k, k + 1) if 0 < p < end)
+            k *= 2
+        for k in range(4096, end, 4096):
+            positions.update(p for p in (k - 1, k, k + 1) if p < end)
+        positions.update(r.randrange(1, end) for _ in range(200 if ctx.thorough else 60))
+        positions.update([1, 2, end - 1, end - 2, end - 3, end - 4, end - 5])
+        for pos in sorted(positions):
+            for new in set([(msg[pos] + 1) % 256, msg[pos] ^ 0x80, r.randrange(256)]):
+                if new == msg[pos] or (pos >= end - 2 and bytes([new]).upper() == bytes([msg[pos]]).upper()):
+                    continue
+                mut = msg[:pos] + bytes([new]) + msg[pos + 1:]
+                got = codecio.impl_line("dm", "latin-1", mut)
+                big.evaluations += 1
+                big.nontrivial.add((size, pos, new))
+                big.count("len~%dk" % (size // 1000))
+                case = {"message_len": len(msg), "message_sha1": __import__("hashlib").sha1(msg).hexdigest(),
+                        "pos": pos, "new": new, "seed_size": size}
+                if len(big.samples) < 2:
+                    big.samples.append(case)
+                if got.startswith("ok") and not wellformed(mut):
+                    big.fail(case, "a single-byte substitution at offset %d of a %d byte message is not detected" % (pos, len(msg)),
+                             "large/accepted-subst")
+                lines.append(codecio.model_line("dm", "latin-1", mut))
+                impls.append(got[:2])
+                metas.append(case)
+    if ctx.driver_ok:
+        model = common.drive(lines)
+        for i, m, meta in zip(impls, model, metas):
+            if codecio.canon_model(m)[:2] != i:
+                big.disagree(meta, i, m[:40])
+    return [s, big]
 
 
 def wellformed(m):
